@@ -450,6 +450,9 @@ top:
 		p.pos++
 		switch b {
 		case '\\':
+			if len(p.buf) <= p.pos {
+				goto fail
+			}
 			b = p.buf[p.pos]
 			p.pos++
 			switch b {
@@ -514,13 +517,14 @@ func (p *parser) readStr(term byte) string {
 		b := p.buf[p.pos]
 		p.pos++
 		if b == term {
-			break
+			return string(p.buf[start : p.pos-1])
 		}
 		if b == '\\' {
 			return p.readEscStr(start, term)
 		}
 	}
-	return string(p.buf[start : p.pos-1])
+	p.raise("string not terminated")
+	return ""
 }
 
 func (p *parser) readRegex() *regexp.Regexp {
